@@ -28,6 +28,25 @@ def shuffles(count, rng):
     return out
 
 
+def many(count, rng):
+    """3..6 concurrent datagrams of 2..3 fragments each, fully interleaved, identifications and address pairs drawn independently
+    from small sets (mode "mixed"): the reassembler's table holds several contexts whose keys agree in some components"""
+    out = []
+    for _ in range(count):
+        k = rng.randrange(3, 7)
+        n = [rng.randrange(2, 5) for _ in range(k)]
+        pk = []
+        for d in range(1, k + 1):
+            cuts = sorted(set([0, n[d - 1]] + [rng.randrange(1, n[d - 1]) for _ in range(rng.randrange(1, 3))]))
+            for a, b in zip(cuts, cuts[1:]):
+                pk.append({"d": d, "off": a, "len": b - a, "mf": b != n[d - 1]})
+        rng.shuffle(pk)
+        for _ in range(rng.randrange(0, 3)):
+            pk.insert(rng.randrange(len(pk) + 1), dict(rng.choice(pk)))
+        out.append({"n": n, "pkts": pk, "mode": "mixed", "scale": 1})
+    return out
+
+
 def nontrivial(s):
     fr = [p for p in s["pkts"] if p["d"] and (p["mf"] or p["off"])]
     offs = [p["off"] for p in fr if p["d"] == 1]
@@ -69,6 +88,7 @@ def run(tier):
             "pkts": [{"d": 1, "off": o, "len": 1, "mf": o != 7} for o in order] + [{"d": 2, "off": 0, "len": 2, "mf": False}]}
            for order in ([7, 6, 5, 4, 3, 2, 1, 0], [0, 2, 4, 6, 1, 3, 5, 7], [3, 3, 0, 1, 2, 4, 5, 6, 7])]
     scen += big
+    scen += many(800 if quick else 20000, rng)
     # the upper end of the quantifier: header + payload = 65535 octets exactly (payload 65515), one and two octets below it,
     # in several arrival orders (unit 8192 octets, the last unit cut short by `trim`)
     for trim in (21, 22, 23, 29):
@@ -101,7 +121,7 @@ def run(tier):
         "samples": [sh[0], bfs[len(bfs) // 2]] + p.samples[:3],
         "evaluations": len(scen),
         "distinct_nontrivial": len(distinct),
-        "rule": "scenario = two concurrent datagrams (1..8 units, any partition) whose fragments arrive in any order "
+        "rule": "scenario = two (and, in mode mixed, three to six) concurrent datagrams (1..8 units, any partition) whose fragments arrive in any order "
                 "with duplicates, interleaved with unfragmented packets; TLC BFS (depth 4), TLC -simulate (depth 9) and "
                 "seeded complete shuffles; key relation rotates over {different id, different host, reverse direction}; "
                 "unit size rotates over 8..8192 bytes (payloads up to the 65515 octets the length field allows), protocols UDP/TCP/ICMP and ten numbers libtins has no class for; non-trivial = fragments of both datagrams "
